@@ -3,7 +3,7 @@ from __future__ import annotations
 
 import random
 
-from .. import cellsdrv as CD, geoworlds as GW
+from .. import cellsdrv as CD, geoworlds as GW, worlds as W
 
 ID = "C19"
 TITLE = "Plot artists pair every value with its own cell"
@@ -29,7 +29,16 @@ def cases(tier: str, seed: int) -> list[dict]:
     rng = random.Random(seed + 19)
     out = []
     base = {"var": "", "mode": "name", "clim": [], "array": [], "transform": False, "refuse": ""}
-    for w in GW.geo_worlds(tier, seed, big=False):
+    worlds = GW.geo_worlds(tier, seed, big=False)
+    # grids written with longitudes 0..360 that cross the antimeridian (centres on both sides of 180)
+    for conv in ("cf1d", "cf2d", "ugrid"):
+        if conv == "ugrid":
+            wa = GW.mesh_world(W.mesh_from_squares([["Q", "A"], ["B", "Q"]], shape="rect"), enc={"base": 0, "fill": "intfill"})
+        else:
+            wa = GW.structured_world(conv, 2, 3, **({"bounds": True} if conv == "cf1d" else {"shape": "rect", "bounds": True}))
+        worlds.append(GW.shifted(wa, 64 * 179, 0))
+        worlds[-1]["via"] = "memory"
+    for w in worlds:
         CD.add_data_vars(w, rng, rich=False, odd_floats=True)
         nvalid_unknown = None
         ev = [dict(base, a="PolyCollection"),
